@@ -272,7 +272,7 @@ func (sc *collection) doBuild(ctx context.Context) (Provider, error) {
 
 	var err error
 	rootCtx := context.Background()
-	p.rootScope, err = newScope(p, nil, rootCtx, nil)
+	p.rootScope, err = newScopeDeferred(p, nil, rootCtx, nil, true)
 	if err != nil {
 		return nil, &BuildError{
 			Phase:   "scope-creation",
@@ -296,6 +296,25 @@ func (sc *collection) doBuild(ctx context.Context) (Provider, error) {
 		return nil, &BuildError{
 			Phase:   "singleton-creation",
 			Details: "failed to initialize singletons",
+			Cause:   err,
+		}
+	}
+
+	// Phase 7: Run the root scope's initialization functions. They may depend
+	// on singletons, so this happens after the singletons exist.
+	if err := p.rootScope.runInitializers(); err != nil {
+		closeErr := p.Close()
+		if closeErr != nil {
+			return nil, &BuildError{
+				Phase:   "cleanup",
+				Details: "failed to clean up partially created provider",
+				Cause:   closeErr,
+			}
+		}
+
+		return nil, &BuildError{
+			Phase:   "scope-creation",
+			Details: "failed to create root scope",
 			Cause:   err,
 		}
 	}
